@@ -69,7 +69,12 @@ class DPT2ByteFloat(DPTNumeric):
                 exponent += 1
                 knx_value /= 2
 
-            mantisse = round(knx_value) & 0x7FF
+            mantisse = round(knx_value)
+            if not cls._test_boundaries((mantisse << exponent) / 100):
+                # value_min / value_max need not be representable: rounding shall not
+                # leave the range - from_knx would refuse the payload
+                mantisse += 1 if mantisse < 0 else -1
+            mantisse &= 0x7FF
             msb = exponent << 3 | mantisse >> 8
             if knx_value < 0:
                 msb |= 0x80
